@@ -17,11 +17,15 @@ ASSUMPTIONS = [
 def T(name, *ops, **kw):
     d = {'name': name, 'ops': list(ops)}; d.update(kw); return d
 
-def S(name, threads, pool_max=0, queues=1, R=3, B=14, oracles=(), order=None, pool_slots=None, cap=3, witness=None):
+def S(name, threads, pool_max=0, queues=1, R=3, B=14, oracles=(), order=None, pool_slots=None, cap=3, witness=None, seq=None):
     sc = {'name': name, 'pool_max': pool_max, 'queues': queues, 'threads': threads}
     if pool_slots is not None: sc['pool_slots'] = pool_slots
-    return {'name': name, 'scen': sc, 'R': R, 'B': B, 'oracles': list(oracles), 'order': order, 'cap': cap, 'witness': witness,
-            'bounds': {'R': R, 'B': B, 'CAP': cap, 'threads': len(threads) + (pool_slots if pool_slots is not None else pool_max), 'pool_max': pool_max}}
+    if seq is not None:
+        seq = seq.split() if isinstance(seq, str) else list(seq); R = len(seq)
+    bounds = {'R': R, 'B': B, 'CAP': cap, 'threads': len(threads) + (pool_slots if pool_slots is not None else pool_max), 'pool_max': pool_max}
+    if seq is not None: bounds = dict(bounds, R='explicit slot sequence', slot_sequence=' '.join(seq))
+    elif order is not None: bounds['thread_order'] = order
+    return {'name': name, 'scen': sc, 'R': R, 'B': B, 'oracles': list(oracles), 'order': order, 'seq': seq, 'cap': cap, 'witness': witness, 'bounds': bounds}
 
 BASE = ('panic', 'overlap', 'ran_twice')
 
@@ -69,6 +73,10 @@ def scenarios(prop, tier, seed=0):
                    oracles=BASE + ('results', 'deadlock')))
         L.append(S('c04_p1_gate_desync_sync', [T('A', ('desync', 0, GATE)), T('B', ('sync', 0)), T('W', ('open_gate', 0))],
                    pool_max=1, R=3, B=14, oracles=BASE + ('results', 'deadlock')))
+        # the queue is parked on a future last polled by the pool's only thread (WaitingForWake), that thread is then kept busy by another object,
+        # a sync caller blocks on the queue and only then is the future woken: the caller must take the queue over itself
+        L.append(S('c04_p1_fut_sync_busy_pool_seq', [T('A', ('future_desync', 0, {'fut': ('gate', 0), 'as': 'f'}), ('detach', 'f'), ('desync', 1, {'acts': ['enter', ('gate', 1), 'exit']})), T('B', ('sync', 0)), T('W', ('open_gate', 0))],
+                   pool_max=1, queues=2, seq='A P0 A P0 B W B', B=20, oracles=BASE + ('results', 'deadlock'), witness='callers_done'))
         if not q: L.append(S('c04_p1_fut_sync_busy_pool', [T('A', ('future_desync', 0, {'fut': ('gate', 0), 'as': 'f'}), ('detach', 'f'), ('desync', 1, {'acts': ['enter', ('gate', 1), 'exit']})), T('B', ('sync', 0)), T('W', ('open_gate', 0))],
                    pool_max=1, queues=2, R=3, B=16, oracles=BASE + ('results', 'deadlock')))
         if not q:
@@ -110,6 +118,14 @@ def scenarios(prop, tier, seed=0):
                    oracles=BASE + ('pool_max',)))
         L.append(S('c17_p0_no_threads', [T('A', ('desync', 0)), T('B', ('sync', 0))], pool_max=0, pool_slots=1, R=2, B=16,
                    oracles=BASE + ('pool_max', 'deadlock')))
+        # lower the maximum below the number of live threads, then despawn: must return with the pool at the new maximum
+        L.append(S('c17_p1_despawn', [T('A', ('desync', 0), ('set_max', 0), ('despawn',))], pool_max=1, pool_slots=2, R=3, B=24,
+                   oracles=BASE + ('pool_max', 'deadlock', 'quiescent_complete')))
+        # ... while the thread being despawned is busy with a job that itself schedules work (on another queue) during the despawn.
+        # The maximum is changed between phases, as the property's quantifier says: after A's scheduling call returned and before the
+        # job's own scheduling call starts (the job waits for gate 0, which B opens after set_max_threads returned).
+        L.append(S('c17_p1_despawn_busy', [T('A', ('desync', 0, {'acts': ['enter', ('gate', 0), ('desync', 1), 'exit']})), T('B', ('set_max', 0), ('open_gate', 0), ('despawn',), after=['A'])],
+                   pool_max=1, pool_slots=2, queues=2, seq='A P0 B P0 P1 B', B=30, oracles=BASE + ('pool_max', 'deadlock')))
         if not q:
             L.append(S('c17_p2_three_spawners', [T('A', ('desync', 0)), T('B', ('desync', 1)), T('C', ('desync', 2))], pool_max=2, pool_slots=3, queues=3, R=3, B=14,
                        oracles=BASE + ('pool_max',)))
